@@ -181,6 +181,22 @@ def main():
                 S = 2 ** 20
                 out.write({"id": rid, "kind": "eig", "nt": True, "symmetric": True, "d": d, "S": S, "A": T(Ae, d), "nbo": NB,
                            "val": q(w, S), "vec": q(v, S)})
+            # general (non-symmetric) eigen-decomposition: A = V diag(lambda) V^-1 with unimodular integer V, distinct integer spectrum;
+            # the returned vectors must be RIGHT eigenvectors (A v = lambda v)
+            rid = "eig-%s" % tag
+            if out.want(rid) and d >= 2:
+                An = np.zeros((d, d, NB))
+                for b_ in range(NB):
+                    Lm = np.tril(rng.randint(-1, 2, size=(d, d)), -1) + np.eye(d)
+                    Um = np.triu(rng.randint(-1, 2, size=(d, d)), 1) + np.eye(d)
+                    V = Lm @ Um
+                    lam = rng.choice(np.arange(-4, 5), size=d, replace=False).astype(float)
+                    An[:, :, b_] = V @ np.diag(lam) @ np.linalg.inv(V)
+                An = np.rint(An)
+                w, v = fm.eig(An)
+                S = 2 ** 20
+                out.write({"id": rid, "kind": "eig", "nt": True, "symmetric": False, "d": d, "S": S, "A": T(An, d), "nbo": NB,
+                           "val": q(np.real(w), S), "vec": q(np.real(v), S)})
             # eigenvalues with principal shear values (integer spectra: diagonal matrices conjugated by a signed permutation)
             rid = "eigshear-%s" % tag
             if out.want(rid) and d >= 2:
